@@ -119,7 +119,7 @@ struct AutoWorld : World {
                 if (s.gain == 100 && s.offset == 0 && v >= 0 && v <= 1) {     // default mapping: linear 0..1 -> min..max
                     double e = s.log ? exp(log(s.mn) + v * (log(s.mx) - log(s.mn))) : s.mn + (double)v * (s.mx - s.mn);
                     bool ok;
-                    if (s.type == 'i' || s.type == 'c') { double tolr = 1e-4 * (fabs(s.mx - s.mn) + 1); ok = fabs(out - e) <= 0.5 + tolr; }   // rounded to the nearest integer, computed in single precision
+                    if (s.type == 'i' || s.type == 'c') { double tolr = 1e-4 * (fabs(s.mx - s.mn) + 1) + 4e-7 * (fabs(s.mn) + fabs(s.mx) + fabs(e)); ok = fabs(out - e) <= 0.5 + tolr; }   // rounded to the nearest integer; the map runs through single-precision control points (as for floats: their resolution at the bounds' magnitude is granted)
                     else if (s.log) ok = fabs(out - e) <= 1e-5 * fabs(e) + 1e-12;
                     else ok = fabs(out - e) <= 4e-7 * (fabs(s.mn) + fabs(s.mx) + fabs(e));
                     if (!ok) { snprintf(b, sizeof b, "op %d: %s at default gain/offset, slot value %.9g -> %.9g, linear map onto [%g,%g] gives %.9g", opi, mm, v, out, s.mn, s.mx, e); fail("LINEAR", b); return false; }
